@@ -70,7 +70,13 @@ struct Out {
 impl Out {
     fn case<T: serde::Serialize>(&mut self, kind: &str, trace: String, intended: Value, value: &T, readback: impl Fn(&str) -> String, expect_error: bool) {
         let path = self.dir.path.join("doc.toml");
+        // every second case overwrites an existing, much longer document: the file must hold the
+        // new document only
         let _ = std::fs::remove_file(&path);
+        if self.n % 2 == 0 {
+            let old: String = (0..40).map(|i| format!("previous_key_{i} = \"previous value {i}\"\n")).collect();
+            std::fs::write(&path, old).unwrap();
+        }
         let r = libcnb::write_toml_file(value, &path);
         let (toml, err) = match r {
             Ok(()) => (std::fs::read_to_string(&path).ok(), None),
